@@ -619,3 +619,67 @@ def aliased_store_mutations(func_node: ast.AST, attrs: Iterable[str] | None = No
                 seen.add(id(n))
                 out.append((n, root.id, a))
     return out
+
+
+# ---------------------------------------------------------------------------------------------
+# conditions known to hold at a program point (independent of how the branches are nested)
+
+
+_NEG_OPS = {ast.In: ast.NotIn, ast.NotIn: ast.In, ast.Eq: ast.NotEq, ast.NotEq: ast.Eq, ast.Is: ast.IsNot, ast.IsNot: ast.Is,
+            ast.Lt: ast.GtE, ast.GtE: ast.Lt, ast.Gt: ast.LtE, ast.LtE: ast.Gt}
+
+
+def negate(e: ast.AST) -> ast.AST:
+    """logical negation in normal form: not-not removed, single comparisons flipped, De Morgan over and/or"""
+    if isinstance(e, ast.UnaryOp) and isinstance(e.op, ast.Not):
+        return e.operand
+    if isinstance(e, ast.Compare) and len(e.ops) == 1 and type(e.ops[0]) in _NEG_OPS:
+        return ast.copy_location(ast.Compare(left=e.left, ops=[_NEG_OPS[type(e.ops[0])]()], comparators=e.comparators), e)
+    if isinstance(e, ast.BoolOp):
+        return ast.copy_location(ast.BoolOp(op=ast.Or() if isinstance(e.op, ast.And) else ast.And(), values=[negate(v) for v in e.values]), e)
+    return ast.copy_location(ast.UnaryOp(op=ast.Not(), operand=e), e)
+
+
+def _conjuncts(e: ast.AST) -> list[ast.AST]:
+    if isinstance(e, ast.BoolOp) and isinstance(e.op, ast.And):
+        out: list[ast.AST] = []
+        for v in e.values:
+            out.extend(_conjuncts(v))
+        return out
+    if isinstance(e, ast.UnaryOp) and isinstance(e.op, ast.Not) and isinstance(e.operand, (ast.UnaryOp, ast.Compare, ast.BoolOp)):
+        n = negate(e.operand)
+        if not (isinstance(n, ast.UnaryOp) and isinstance(n.op, ast.Not) and n.operand is e.operand):
+            return _conjuncts(n)
+    return [e]
+
+
+def conditions_at(g: CFG, func_node: ast.AST, target: ast.AST, pm: dict[int, ast.AST] | None = None) -> list[ast.AST]:
+    """Conditions (normalised, split into conjuncts) that hold on EVERY path reaching `target`: a test contributes when
+    the target becomes unreachable once one of the test's outgoing edges is removed - `if c: <target>`,
+    `if not c: continue` / `return` before the target, and any nesting of these give the same answer."""
+    nodes = [n.id for n in cfg_node_of(g, func_node, target, pm)]
+    if not nodes:
+        return []
+    out: list[ast.AST] = []
+    for t in g.nodes:
+        if t.kind != "test" or t.ast is None:
+            continue
+        for lab in ("true", "false"):
+            if not any(l_ == lab for _, l_ in g.succ[t.id]):
+                continue
+            # reachability without the edge (t, lab)
+            seen: set[int] = set()
+            stack = [g.entry]
+            while stack:
+                x = stack.pop()
+                if x in seen:
+                    continue
+                seen.add(x)
+                for s_, l_ in g.succ[x]:
+                    if x == t.id and l_ == lab:
+                        continue
+                    stack.append(s_)
+            if all(nid not in seen for nid in nodes) and all(nid != t.id for nid in nodes):
+                cond = t.ast if lab == "true" else negate(t.ast)
+                out.extend(_conjuncts(cond))
+    return out
